@@ -16,6 +16,8 @@ import os
 
 import numpy as np
 
+from .oracle import indep_in_bounds
+
 
 class Emitter:
     def __init__(self, path: str, proc: int):
@@ -161,7 +163,7 @@ class StandardObserver:
         self.in_observer = True
         try:
             p1 = np.atleast_1d(p)
-            inb = bool(np.all(self.model.in_bounds(p1)))
+            inb = bool(np.all(indep_in_bounds(self.model, p1)))
             lp = float(np.atleast_1d(self.model.log_prior(p1))[0])
             ll = float(np.atleast_1d(self.model.log_likelihood(p1))[0]) if inb and math.isfinite(lp) else float("nan")
         finally:
@@ -550,7 +552,7 @@ class StandardObserver:
             if unit:
                 x1 = m.from_unit_hypercube(x1)
             if x1.size:
-                inb = m.in_bounds(x1)
+                inb = indep_in_bounds(m, x1)
                 lp = np.atleast_1d(m.log_prior(x1))
                 bad = int(np.sum(~inb | ~np.isfinite(lp)))
                 if bad:
@@ -695,7 +697,7 @@ def _wrap_draw(cls, obs):
         try:
             p = np.atleast_1d(r)
             obs.draws.append([pids(p, obs.names)[0], fl(p["logL"][0]),
-                              bool(np.isfinite(p["logP"][0])), bool(obs.model.in_bounds(p)[0])])
+                              bool(np.isfinite(p["logP"][0])), bool(indep_in_bounds(obs.model, p)[0])])
         except Exception:
             obs.draws.append([0, float("nan"), False, False])
         return r
@@ -730,7 +732,7 @@ def _wrap_populate(cls, obs):
             obs.in_observer = True
             try:
                 m = obs.model
-                inb = m.in_bounds(smp)
+                inb = indep_in_bounds(m, smp)
                 lp = np.atleast_1d(m.log_prior(smp))
                 okp = inb & np.isfinite(lp)
                 ll = np.full(n, np.nan)
